@@ -30,7 +30,7 @@ from props import c14 as c14suite
 
 RULE = ('generated reference problems (5-8 leaves, 2-3 levels, 10-16 genes, '
         '8-20 query cells); per stage the ungated run fixes n_workers, then '
-        'every (thorough; 8 sampled on the 4th problem) / 3 (quick) of the completion orders feasible for '
+        'every (thorough; 8 sampled on the 4th problem) / 5 (quick) of the completion orders feasible for '
         '(n_workers, n_processors) as enumerated by the Lean model, gating '
         'modes entry/exit; hash seeds {0,random} (quick) / {0,1,2,random} '
         '(thorough); worker counts 2..4 with equal effective chunk size. '
@@ -500,8 +500,8 @@ def run(ctx):
     check_reorder(ctx, rng, 300 if ctx.tier == 'quick' else 2000)
     check_marker_cache_order(ctx, rng, 40 if ctx.tier == 'quick' else 300)
     if ctx.tier == 'quick':
-        run_problem(ctx, rng.randrange(2 ** 31), rng.choice([6, 7]), 3,
-                    n_orders=3, hash_seeds=['0', 'random'])
+        run_problem(ctx, rng.randrange(2 ** 31), rng.choice([7, 8]), 3,
+                    n_orders=5, hash_seeds=['0', 'random'])
     else:
         run_problem(ctx, rng.randrange(2 ** 31), 8, 4, n_orders=None,
                     hash_seeds=['0', '1', '2', 'random'])
